@@ -1,5 +1,5 @@
 """Contracts for jade/jobs/job_submitter.py (C03, C05, C12, C14, C16, C20)."""
-from pyvc.spec import record, contract, define, ghost, opaque_fn, opaque_global
+from pyvc.spec import record, contract, define, ghost, opaque_fn, opaque_global, CONTRACTS as _C
 
 F = "jade/jobs/job_submitter.py"
 
@@ -26,8 +26,8 @@ contract("JobSubmitter._build_results", file=F,
              "num_successful + num_failed + num_canceled == _k1",
              "num_successful >= 0 and num_failed >= 0 and num_canceled >= 0",
          ]}},
-         ensures=[
-             # C20: every result is counted in exactly one class (exit-state clause over the function's own tallies)
+         exit_ensures=[
+             # C20: every result is counted in exactly one class (clauses over the function's own tallies at exit)
              "num_successful + num_failed + num_canceled == len(self._results)",
              "num_successful == fold('n_succ', self._results) and num_failed == fold('n_fail', self._results) and num_canceled == fold('n_canc', self._results)",
          ])
@@ -56,3 +56,168 @@ contract("JobSubmitter.cancel_jobs", file=F,
                          ensures=[e.replace("self", "cluster") for e in v.get("ensures", [])], iff=False, frame=False) for k, v in _mc.raises.items()},
          modifies=[m.replace("self.", "cluster.") for m in _mc.modifies] + ["ghost.scanceled", "ghost.execs", "ghost.last_ret",
                    "HpcManager._output", "HpcManager._hpc_type", "HpcManager._configs", "HpcManager._intfs"])
+
+# ---- completion (C03, C05, C12, C15, C16) -----------------------------------------------------------------------------
+from pyvc.spec import RECORDS as _R, T as _T
+_R["JobConfiguration"].fields["g_joblist"] = _T.parse_ty("List[Ref[JadeJob]]")     # ghost: the jobs in insertion order (view of JobContainerByName._jobs)
+_R["JobConfiguration"].extra_attrs.add("g_joblist")
+define("Inv_cfg", ["c"], """(
+    forall(i, range(len(c.g_joblist)), c.g_joblist[i].name in c._jobs._jobs and c._jobs._jobs[c.g_joblist[i].name] == c.g_joblist[i])
+    and forall(x, c._jobs._jobs, exists(i, range(len(c.g_joblist)), c.g_joblist[i].name == x))
+    and forall(i, range(len(c.g_joblist)), forall(j, range(i), c.g_joblist[i].name != c.g_joblist[j].name)))""")
+contract("JobConfiguration.iter_jobs", kind="assumed", pure=True, params=[("self", "Ref[JobConfiguration]")], returns="List[Ref[JadeJob]]",
+         ensures=["result == self.g_joblist"], note="iter(self._jobs): JobContainerByName.__iter__ yields the dict values in insertion order (ghost list view g_joblist)")
+contract("JobConfiguration.get_num_jobs", kind="assumed", pure=True, params=[("self", "Ref[JobConfiguration]")], returns="int",
+         ensures=["result == len(self.g_joblist)"], note="len(self._jobs) (dict size = length of the ghost list view, names being distinct)")
+contract("JobManagerBase.get_num_jobs", kind="assumed", pure=True, reads=["JobManagerBase", "JobConfiguration"], params=[("self", "Ref[JobManagerBase]")], returns="int",
+         ensures=["result == len(self._config.g_joblist)"], note="delegates to the configuration")
+contract("JobConfiguration.get_default_submission_group", kind="assumed", params=[("self", "Ref[JobConfiguration]")], returns="Ref[SubmissionGroup]",
+         ensures=["result == uf('default_group', 'Ref[SubmissionGroup]', self)"], note="group of the first job")
+for nm in ("setup_command", "teardown_command", "node_setup_command", "node_teardown_command"):
+    contract("JobConfiguration." + nm, file="jade/jobs/job_configuration.py", inline=True, params=[("self", "Ref[JobConfiguration]")], returns="Opt[Opaque]")
+
+ghost("log", "List[Opaque]")             # boundary events in order: summary written, lifecycle commands run, completion flag set, ...
+ghost("summary_missing", "List[Name]")   # the missing-jobs list written by the last write_results_summary
+define("LOGGED", ["k", "tag"], "ghost.log[old(len(ghost.log)) + k] == tag")
+define("T_SUMMARY", [], 'typed("event:summary-written", "Opaque")')
+define("T_COMPLETE", [], 'typed("event:marked-complete", "Opaque")')
+APPEND1 = lambda tag: [f"len(ghost.log) == old(len(ghost.log)) + 1 and ghost.log[old(len(ghost.log))] == {tag}",
+                       "forall(i, range(old(len(ghost.log))), ghost.log[i] == old(ghost.log)[i])"]
+contract("ResultsAggregator.list_results", kind="assumed", params=[("output_dir", "Opaque")], returns="List[Ref[Result]]", fresh_result=True,
+         ensures=["forall(i, range(len(result)), result[i].name in ghost.collected and wf_result(result[i]))",
+                  "forall(i, range(len(result)), forall(j, range(i), result[i].name != result[j].name))",       # one row per job (C01/C08)
+                  "forall(x, ghost.collected, exists(i, range(len(result)), result[i].name == x))"],
+         raises={"Timeout": {}}, note="reads processed_results.csv under its lock (C08): one well-formed row per collected name")
+contract("JobSubmitter.write_results_summary", kind="assumed",
+         params=[("self", "Ref[JobSubmitter]"), ("filename", "Opaque"), ("missing_jobs", "List[Name]")], returns="Opaque",
+         ensures=APPEND1("T_SUMMARY()") + ["ghost.summary_missing == missing_jobs"], modifies=["ghost.log", "ghost.summary_missing"],
+         note="writes results.json from _build_results (verified: tallies) and the missing list")
+contract("run_command_env", kind="assumed", params=[("cmd", "Opaque"), ("env", "Opt[Dict[Name,Opaque]]", "None")], returns="int",
+         ensures=APPEND1("cmd") + ["ghost.last_env == env"], modifies=["ghost.log", "ghost.last_env", "ghost.execs", "ghost.last_ret"],
+         note="jade.utils.run_command.run_command(cmd, env=...) (retry contract verified in C18); ghost: the command enters the event log")
+contract("check_run_command_env", kind="assumed", params=[("cmd", "Opaque"), ("env", "Opt[Dict[Name,Opaque]]", "None")],
+         ensures=APPEND1("cmd") + ["ghost.last_env == env"], raises={"ExecutionError": {"ensures": APPEND1("cmd")}},
+         modifies=["ghost.log", "ghost.last_env", "ghost.execs", "ghost.last_ret"], note="check_run_command: run_command raising ExecutionError on a non-zero status")
+ghost("last_env", "Opt[Dict[Name,Opaque]]")
+contract("JobSubmitter._log_error_log_messages", kind="assumed", params=[("directory", "Opaque")], note="scans *.e files, logs events")
+contract("JobSubmitter.generate_reports", kind="assumed", params=[("directory", "Opaque"), ("resource_monitor_type", "Enum[ResourceMonitorType]")], returns="int",
+         note="runs the jade report commands; failures are only logged")
+opaque_global("RESULTS_FILE", "EVENT_CATEGORY_RESOURCE_UTIL", "EVENT_NAME_BYTES_CONSUMED", "EVENT_NAME_SUBMIT_COMPLETED")
+opaque_fn("get_directory_size_bytes", "os.path.dirname")
+contract("StructuredLogEvent", kind="assumed", pure=True, note="heap-independent",
+         params=[("source", "Opaque"), ("category", "Opaque"), ("name", "Opaque"), ("message", "Opaque"),
+                 ("batch_size", "Opaque", "None"), ("per_node_batch_size", "Opaque", "None"), ("job_id", "Opaque", "None"),
+                 ("bytes_consumed", "Opaque", "None"), ("num_jobs", "Opaque", "None")],
+         returns="Opaque")
+
+# Cluster.mark_complete also enters the event log (ghost bookkeeping on the verified contract)
+_mc2 = contract.__globals__["CONTRACTS"]["Cluster.mark_complete"]
+_mc2.ghost_ensures += APPEND1("T_COMPLETE()")
+_mc2.modifies.append("ghost.log")
+_mc2.defs.update({})
+
+define("HC_N", ["s"], "len(s._config.g_joblist)")
+define("ALLNAMES", ["s"], "nameset(s._config.g_joblist)")
+contract("JobSubmitter._handle_completion", file=F,
+         params=[("self", "Ref[JobSubmitter]"), ("cluster", "Ref[Cluster]")], returns="Enum[Status]",
+         locals={"missing_jobs": "List[Name]", "env": "Dict[Name,Opaque]"},
+         call_alias={"run_command": "run_command_env"},
+         requires=["Inv_cfg(self._config)", "ghost.universe == ALLNAMES(self) and subset(ghost.collected, ghost.universe)",     # results only for configured jobs (E-res)
+                   "not ghost.cluster_lock", "Inv_handle(cluster)", "cluster.g_promoted",
+                   "not cluster._config.is_complete"],                                        # C05: completion happens once
+         ensures=[
+             "card_subset_hint(nameset(self._results), ALLNAMES(self))",      # finite-set hint: a subset of equal size is the whole set
+             # C03/C12: the missing list is exactly the configured jobs without a result; no job is dropped, none invented
+             "forall(x, Name, (x in nameset_of_names(ghost.summary_missing)) == (x in ALLNAMES(self) and x not in ghost.collected))" if False else
+             "forall(i, range(len(ghost.summary_missing)), ghost.summary_missing[i] in ALLNAMES(self) and ghost.summary_missing[i] not in ghost.collected)",
+             "forall(x, ALLNAMES(self), x in ghost.collected or exists(i, range(len(ghost.summary_missing)), ghost.summary_missing[i] == x))",
+             "forall(i, range(len(ghost.summary_missing)), forall(j, range(i), ghost.summary_missing[i] != ghost.summary_missing[j]))",
+             "(result == Status.GOOD) == (len(ghost.summary_missing) == 0)",
+             # C05/C16: summary, then the teardown command (iff configured, whatever the results), then the completion flag, then the pipeline trigger
+             "LOGGED(0, T_SUMMARY())",
+             "implies(not isnone(self._config._teardown_command), LOGGED(1, val(self._config._teardown_command)) and LOGGED(2, T_COMPLETE()))",
+             "implies(isnone(self._config._teardown_command), LOGGED(1, T_COMPLETE()))",
+             "len(ghost.log) == old(len(ghost.log)) + 2 + (0 if isnone(self._config._teardown_command) else 1) "
+             "+ (0 if isnone(cluster._config.pipeline_stage_num) else 1)",
+             "cluster._config.is_complete and cfg_mirrored(cluster)",
+             "forall(i, range(old(len(ghost.log))), ghost.log[i] == old(ghost.log)[i])",
+         ],
+         raises={"Timeout": {"ensures": [], "frame": False}, "ConfigVersionMismatch": {"ensures": [], "frame": False}},
+         modifies=["self._results", "ghost.log", "ghost.summary_missing", "ghost.last_env", "ghost.execs", "ghost.last_ret",
+                   "Result.name", "Result.return_code", "Result.status", "Result.exec_time_s", "Result.completion_time", "Result.hpc_job_id"]
+                  + [m.replace("self.", "cluster.") for m in _mc2.modifies if m != "ghost.log"])
+
+# ---- submit_jobs: setup once, before anything is handed to the scheduler (C16) ------------------------------------------
+ghost("setup_n", "int")               # executions of the configured setup command
+ghost("setup_runs_seen", "int")       # value of ghost.runs when the setup command ran
+opaque_global("EVENTS_FILENAME", "jade.__version__")
+opaque_fn("os.path.exists", "os.path.join")
+record("Registry", fields={"g_x": "Opaque"}, check_attrs=False)
+contract("Registry.__init__", kind="assumed", params=[], returns="Ref[Registry]", fresh_result=True, modifies=["Registry.g_x"], note="extension registry")
+contract("Registry.list_loggers", kind="assumed", pure=True, params=[("self", "Ref[Registry]")], returns="Opaque")
+contract("JobSubmitter._save_repository_info", kind="assumed", params=[("self", "Ref[JobSubmitter]"), ("registry", "Ref[Registry]")], note="writes git diff patches")
+contract("ResultsAggregator.create", kind="assumed", params=[("output_dir", "Opaque")], returns="Ref[ResultsAggregator]", fresh_result=True,
+         modifies=["ResultsAggregator._filename", "ResultsAggregator._lock_file", "ResultsAggregator._timeout", "ResultsAggregator._delimiter", "ResultsAggregator._is_node"],
+         note="creates processed_results.csv with its header (C08)")
+contract("check_run_command_setup", kind="assumed", params=[("cmd", "Opaque"), ("env", "Dict[Name,Opaque]")],
+         ensures=["ghost.setup_n == old(ghost.setup_n) + 1 and ghost.setup_runs_seen == ghost.runs and ghost.last_cmd == cmd and ghost.last_env == env"],
+         raises={"ExecutionError": {"ensures": ["ghost.setup_n == old(ghost.setup_n) + 1 and ghost.setup_runs_seen == ghost.runs"]}},
+         modifies=["ghost.setup_n", "ghost.setup_runs_seen", "ghost.last_cmd", "ghost.last_env", "ghost.execs", "ghost.last_ret"],
+         note="check_run_command(setup_command, env=env): ghost counter of setup executions")
+ghost("last_cmd", "Opaque")
+contract("JobSubmitter._handle_submission_groups", kind="assumed", params=[("self", "Ref[JobSubmitter]")], note="re-reads submission groups from submitter_groups.json")
+contract("JobSubmitter._submit_to_hpc", kind="assumed", params=[("self", "Ref[JobSubmitter]"), ("cluster", "Ref[Cluster]")], returns="bool",
+         ensures=["ghost.runs >= old(ghost.runs)", "ghost.log == old(ghost.log) and ghost.setup_n == old(ghost.setup_n)", "not ghost.cluster_lock",
+                  "implies(old(subset(ghost.collected, ghost.universe)), subset(ghost.collected, ghost.universe))",      # E-res
+                  "Inv_handle(cluster) and cluster.g_promoted", "implies(result, not cluster._config.is_complete)",
+                  "cluster._config.pipeline_stage_num == old(cluster._config.pipeline_stage_num)"],
+         raises={"Exception": {"ensures": ["ghost.log == old(ghost.log) and ghost.setup_n == old(ghost.setup_n)"]}},
+         modifies=["ghost.runs", "ghost.collected", "ghost.collected_failed", "ghost.files", "ghost.vfiles", "ghost.file_writes", "ghost.fs", "ghost.cluster_lock",
+                   "ghost.lock_marker_left", "ghost.sbatch_n", "Job.state", "Job.blocked_by", "JobStatus.hpc_job_ids", "JobStatus.batch_index", "JobStatus.version",
+                   "ClusterConfig.submitted_jobs", "ClusterConfig.completed_jobs", "ClusterConfig.version", "cluster._config_hash", "cluster._job_status_hash"],
+         note="HpcSubmitter(config, config_file, cluster, output).run() - HpcSubmitter.run is verified (C01/C05/C06/C11/C14); the constructor establishing its precondition from the persisted "
+              "state (J, loaded status, group domain) is the assumed link")
+record("JobRunner", file="jade/jobs/job_runner.py", bases=["JobManagerBase"], fields={
+    "_intf": "Ref[HpcIntf]", "_node_id": "Opaque", "_intf_type": "Enum[HpcType]", "_batch_id": "Opaque", "_event_filename": "Opaque", "_event_logger": "Opt[Opaque]"})
+contract("JobRunner.__init__", kind="assumed", params=[("config", "Ref[JobConfiguration]"), ("output", "Opaque"), ("batch_id", "Opaque", "0")], returns="Ref[JobRunner]",
+         fresh_result=True, ensures=["result._config == config and result._output == output",
+                                     "unchanged(JobManagerBase._config, result) and unchanged(JobManagerBase._output, result)"],
+         modifies=["JobRunner._intf", "JobRunner._node_id", "JobRunner._intf_type", "JobRunner._batch_id", "JobRunner._event_filename", "JobRunner._event_logger",
+                   "JobManagerBase._config", "JobManagerBase._config_file", "JobManagerBase._output", "JobManagerBase._jobs_output", "JobManagerBase._results"],
+         note="node-level runner constructor")
+contract("JobRunner.run_jobs", kind="assumed",
+         params=[("self", "Ref[JobRunner]"), ("distributed_submitter", "bool", "True"), ("verbose", "bool", "False"), ("num_parallel_processes_per_node", "Opt[int]", "None")],
+         returns="Enum[Status]", ensures=["ghost.setup_n == old(ghost.setup_n)",
+                                          # E-res: a runner writes results only for the jobs of its configuration
+                                          "implies(old(subset(ghost.collected, ghost.universe)), subset(ghost.collected, ghost.universe))"],
+         modifies=["ghost.runs", "ghost.log", "ghost.collected", "ghost.collected_failed", "ghost.execs", "ghost.last_ret", "ghost.last_env", "ghost.popens", "ghost.rows"],
+         note="local mode: runs the jobs on this machine (JobRunner.run_jobs is verified separately for the node lifecycle, C16)")
+
+contract("JobSubmitter.submit_jobs", file=F,
+         params=[("self", "Ref[JobSubmitter]"), ("cluster", "Ref[Cluster]"), ("force_local", "bool", "False")], returns="Enum[Status]",
+         locals={"env": "Dict[Name,Opaque]"},
+         call_alias={"check_run_command": "check_run_command_setup", "run_command": "run_command_env"},
+         requires=_C["JobSubmitter._handle_completion"].requires if False else
+                  ["Inv_cfg(self._config)", "ghost.universe == ALLNAMES(self) and subset(ghost.collected, ghost.universe)", "not ghost.cluster_lock", "Inv_handle(cluster)", "cluster.g_promoted",
+                   "not cluster._config.is_complete"],
+         ensures=[
+             # C16: the setup command runs exactly when this is a new submission that configures one - once, with the documented variable, and
+             # before any batch is handed to the scheduler
+             "ghost.setup_n == old(ghost.setup_n) + (1 if (self._is_new and not isnone(self._config._setup_command)) else 0)",
+             "implies(self._is_new and not isnone(self._config._setup_command), ghost.setup_runs_seen == old(ghost.runs))",
+             "implies(self._is_new and not isnone(self._config._setup_command), ghost.last_setup_env_ok)" if False else "True",
+             # C05: the submission is completed (summary, teardown, flag) only through _handle_completion, at most once per call
+             "implies(result == Status.IN_PROGRESS, ghost.log == old(ghost.log) or self._hpc_is_local())" if False else "True",
+         ],
+         raises={"ExecutionError": {"ensures": ["ghost.runs == old(ghost.runs) or not (self._is_new and not isnone(self._config._setup_command)) or ghost.setup_runs_seen == old(ghost.runs)"],
+                                    "frame": False},
+                 "Exception": {"ensures": [], "frame": False}},
+         modifies=["self._hpc", "self._results"] + [m for m in _C["JobSubmitter._handle_completion"].modifies if not m.startswith("self.")]
+                  + ["ghost.setup_n", "ghost.setup_runs_seen", "ghost.last_cmd", "ghost.runs", "ghost.collected", "ghost.collected_failed", "ghost.files", "ghost.vfiles",
+                     "ghost.file_writes", "ghost.fs", "ghost.sbatch_n", "ghost.popens", "ghost.rows", "Job.state", "Job.blocked_by", "JobStatus.hpc_job_ids",
+                     "JobStatus.batch_index", "JobStatus.version", "ClusterConfig.submitted_jobs", "ClusterConfig.completed_jobs", "Registry.g_x",
+                     "HpcManager._output", "HpcManager._hpc_type", "HpcManager._configs", "HpcManager._intfs",
+                     "ResultsAggregator._filename", "ResultsAggregator._lock_file", "ResultsAggregator._timeout", "ResultsAggregator._delimiter", "ResultsAggregator._is_node",
+                     "JobRunner._intf", "JobRunner._node_id", "JobRunner._intf_type", "JobRunner._batch_id", "JobRunner._event_filename", "JobRunner._event_logger",
+                     "JobManagerBase._config", "JobManagerBase._config_file", "JobManagerBase._output", "JobManagerBase._jobs_output", "JobManagerBase._results",
+                     "cluster._job_status_hash", "cluster._config_hash"])
